@@ -61,11 +61,23 @@ Definition maybe_delete_channel (lc : string) : M unit :=
   | None => retM tt
   end.
 
-(* for _, c := range i.channels { delete(c.nicks, nick); maybeDeleteChannel(c) } *)
+(* for _, c := range i.channels { delete(c.nicks, nick); maybeDeleteChannel(c) }
+   Every iteration touches only its own channel and (when that channel becomes empty) removes
+   it and the invitations naming it; the iterations commute, so the loop is the bulk operation
+   below whatever order Go's map iteration picks (IrcProofs/Determinism.v states this for the
+   per-channel step function). *)
+Definition chan_nonempty (c : chan) : bool := negb (bool_decide (c_nicks c = ∅)).
+Definition emptied_keys (lcnick : string) (chs : gmap string chan) : list string :=
+  map (fun kv : string * chan => chan_to_lower (c_name (snd kv)))
+      (List.filter (fun kv : string * chan => negb (chan_nonempty (cc_nicks (delete lcnick) (snd kv))))
+                   (map_to_list chs)).
 Definition remove_nick_everywhere (lcnick : string) : M unit :=
   DO sv <- getS IN
-  forM (map_to_list (sv_channels sv)).*1 (fun lc =>
-    updChan lc (cc_nicks (delete lcnick)) ;;; maybe_delete_channel lc).
+  let gone : gset string := list_to_set (emptied_keys lcnick (sv_channels sv)) in
+  modS (set_channels (fun chs =>
+     base.filter (fun kv : string * chan => chan_to_lower (c_name (snd kv)) ∉ gone)
+                 (cc_nicks (delete lcnick) <$> chs))) ;;;
+  modS (set_sessions (fmap (ss_invited (fun i => i ∖ gone)))).
 
 Definition delete_session (k : skey) : M unit :=
   DO s <- sessM k IN
@@ -158,15 +170,24 @@ Definition maybe_login (e : env) (k : skey) (m : imsg) : M unit :=
       cmd_motd k m.
 
 (* ---- NICK / USER / PASS ------------------------------------------------------------------------ *)
-(* the nick-change loop over all channels: move the member entry from the old to the new key *)
+(* the nick-change loop over all channels: move the member entry from the old to the new key;
+   each iteration touches only its own channel *)
+Definition rename_member (oldn newn : string) (ns : gmap string (bool * bool)) : gmap string (bool * bool) :=
+  match ns !! oldn with
+  | Some perms => delete oldn (<[newn := perms]> ns)
+  | None => delete oldn ns
+  end.
 Definition rename_in_channels (oldn newn : string) : M unit :=
-  DO sv <- getS IN
-  forM (map_to_list (sv_channels sv)).*1 (fun lc =>
-    updChan lc (cc_nicks (fun ns =>
-      match ns !! oldn with
-      | Some perms => delete oldn (<[newn := perms]> ns)
-      | None => delete oldn ns
-      end))).
+  modS (set_channels (fmap (cc_nicks (rename_member oldn newn)))).
+
+(* s.Nick = nick; i.nicks[lower] = s; unless only the capitalisation changes: drop the old index
+   entry and move the member entries; s.updateIrcPrefix() *)
+Definition change_nick (k : skey) (nick oldNick : string) (onlyCaps : bool) : M unit :=
+  updSess k (ss_nick nick) ;;;
+  modS (set_nicks (<[nick_to_lower nick := k]>)) ;;;
+  whenM (negb (is_empty oldNick) && negb onlyCaps)
+    (modS (set_nicks (delete oldNick)) ;;; rename_in_channels oldNick (nick_to_lower nick)) ;;;
+  updSess k update_prefix.
 
 Definition cmd_nick (e : env) (k : skey) (m : imsg) : M unit :=
   DO s <- sessM k IN DO sv <- getS IN
@@ -191,11 +212,7 @@ Definition cmd_nick (e : env) (k : skey) (m : imsg) : M unit :=
       else if String.eqb (s_nick s) nick then retM tt
       else
         let oldNick := nick_to_lower (s_nick s) in
-        updSess k (ss_nick nick) ;;;
-        modS (set_nicks (<[nick_to_lower nick := k]>)) ;;;
-        whenM (negb (is_empty oldNick) && negb onlyCaps)
-          (modS (set_nicks (delete oldNick)) ;;; rename_in_channels oldNick (nick_to_lower nick)) ;;;
-        updSess k update_prefix ;;;
+        change_nick k nick oldNick onlyCaps ;;;
         if negb (is_empty oldNick) then
           DO sv <- getS IN DO s <- sessM k IN
           DO common <- liftR (rc_common sv s) IN
@@ -537,27 +554,34 @@ Definition cmd_names (k : skey) (m : imsg) : M unit :=
   end.
 
 (* ---- JOIN / PART / KICK / INVITE --------------------------------------------------------------------- *)
+(* the member entry and the session's channel list change together; a channel that does not
+   exist yet is inserted together with its first member (the Go code inserts the empty channel a
+   few statements earlier, nothing can observe it in between) *)
+Definition add_member (lc : string) (c0 : chan) (lcnick : string) (tk : skey) (op : bool) : M unit :=
+  modS (set_channels (<[lc := cc_nicks (<[lcnick := (op, false)]>) c0]>)) ;;;
+  updSess tk (ss_channels (fun cs => {[ lc ]} ∪ cs)).
+
+Definition new_chan (name : string) (modes : gset N) : chan := Chan name "" None "" ∅ modes "" [].
+
 Definition join_one (e : env) (k : skey) (channelname key : string) : M unit :=
   DO s <- sessM k IN DO sv <- getS IN
   let lc := chan_to_lower channelname in
   let nosuch := reply_num k "403" [s_nick s; channelname; "No such channel"] in
   if negb (valid_chan channelname) then nosuch
   else
-    (* returns None to `continue`, Some modesmsg? to go on *)
+    (* None = `continue`; Some (created, channel) = go on *)
     DO go <- (match sv_channels sv !! lc with
       | None =>
           let limit := g_maxChannels (sv_config sv) in
           if (limit <=? N.of_nat (size (sv_channels sv)))%N && (0 <? limit)%N then nosuch ;;; retM None
-          else
-            modS (set_channels (<[lc := Chan channelname "" None "" ∅ {[ 110%N; 116%N ]} "" []]>)) ;;;
-            retM (Some true)
+          else retM (Some (true, new_chan channelname {[ 110%N; 116%N ]}))
       | Some c =>
           let invited := in_set lc (s_invited s) in
           if has_mode 105 (c_modes c) && negb invited then
             reply_num k "473" [s_nick s; c_name c; "Cannot join channel (+i)"] ;;; retM None
           else if has_mode 120 (c_modes c) && negb invited then
             DO ok <- verify_captcha e k key IN
-            if ok then retM (Some false)
+            if ok then retM (Some (false, c))
             else
               captcha_url_check k ;;;
               reply_num k "NOTICE" [s_nick s; "To join " ++ c_name c ++ ", please go to MASKED"] ;;;
@@ -567,36 +591,25 @@ Definition join_one (e : env) (k : skey) (channelname key : string) : M unit :=
             reply_num k "474" [s_nick s; c_name c; "Cannot join channel (+b)"] ;;; retM None
           else if has_mode 107 (c_modes c) && negb (String.eqb (c_key c) key) then
             reply_num k "475" [s_nick s; channelname; "Cannot join channel (+k) - Incorrect key"] ;;; retM None
-          else retM (Some false)
+          else retM (Some (false, c))
       end) IN
     match go with
     | None => retM tt
-    | Some created =>
-        DO c <- chanM lc IN
-        match c with
-        | None => panicM "nil pointer: channel vanished"
-        | Some c =>
-            whenM (has_mode 105 (c_modes c) || has_mode 120 (c_modes c))
-                  (updSess k (ss_invited (fun i => i ∖ {[ lc ]}))) ;;;
-            DO s <- sessM k IN
-            let me := nick_to_lower (s_nick s) in
-            if bool_decide (is_Some (c_nicks c !! me)) then retM tt
-            else
-              updChan lc (cc_nicks (<[me := (created, false)]>)) ;;;
-              updSess k (ss_channels (fun cs => {[ lc ]} ∪ cs)) ;;;
-              DO sv <- getS IN
-              match sv_channels sv !! lc with
-              | None => panicM "nil pointer: channel vanished"
-              | Some c =>
-                  DO rc <- liftR (rc_channel sv c) IN
-                  emit rc (usrmsg (s_prefix s) "JOIN" [channelname]) ;;;
-                  whenM created (emit rc (srvmsg sv "MODE" [channelname; "+nt"])) ;;;
-                  emit (rc_services sv) (srvmsg sv "SJOIN" ["1"; channelname; (if created then "@" else EmptyString) ++ s_nick s]) ;;;
-                  cmd_mode k (IMsg None "MODE" [channelname]) ;;;
-                  cmd_topic k (IMsg None "TOPIC" [channelname]) ;;;
-                  cmd_names k (IMsg None "NAMES" [channelname])
-              end
-        end
+    | Some (created, c) =>
+        whenM (has_mode 105 (c_modes c) || has_mode 120 (c_modes c))
+              (updSess k (ss_invited (fun i => i ∖ {[ lc ]}))) ;;;
+        let me := nick_to_lower (s_nick s) in
+        if bool_decide (is_Some (c_nicks c !! me)) then retM tt
+        else
+          add_member lc c me k created ;;;
+          DO sv <- getS IN
+          DO rc <- liftR (rc_channel sv (cc_nicks (<[me := (created, false)]>) c)) IN
+          emit rc (usrmsg (s_prefix s) "JOIN" [channelname]) ;;;
+          whenM created (emit rc (srvmsg sv "MODE" [channelname; "+nt"])) ;;;
+          emit (rc_services sv) (srvmsg sv "SJOIN" ["1"; channelname; (if created then "@" else EmptyString) ++ s_nick s]) ;;;
+          cmd_mode k (IMsg None "MODE" [channelname]) ;;;
+          cmd_topic k (IMsg None "TOPIC" [channelname]) ;;;
+          cmd_names k (IMsg None "NAMES" [channelname])
     end.
 
 Fixpoint zip_keys (chs keys : list string) : list (string * string) :=
